@@ -124,6 +124,7 @@ int main(int argc, char** argv) {
     verif::init_determinism(argc, argv);
     if (argc < 3) return 2;
     if (getenv("C08_RAW")) g_raw = 1;
+    { MUTEX wm; wm.lock(); wm.unlock(); }      // warm-up outside the scheduler (one-time initialisations of libtbb)
     char line[1024];
     while (fgets(line, sizeof line, stdin)) {
         std::istringstream is(line); std::string w; is >> w;
